@@ -3,6 +3,8 @@
 # usage: seed_run.sh <seed id> <Cxx> [tier]      -> prints the tail of the check output; exit code of the check
 set -u
 SID=$1; P=$2; TIER=${3:-quick}
+# VERIF_HOME: the copy of /verif whose checks are run (default /verif; a committed snapshot while builders edit /verif)
+VH=${VERIF_HOME:-/verif}
 WT=/tmp/wt_seedrun_${SID}_$P
 TAG=${SID}_$P
 HEAD=${SEED_BASE:-$(git -C /repo rev-parse HEAD)}
@@ -10,7 +12,7 @@ git -C /repo worktree add -q --detach $WT $HEAD 2>/dev/null || { git -C $WT chec
 # untracked hook files of /repo (verif_*.go) are part of the harness build
 (cd /repo && git ls-files -o --exclude-standard | grep 'verif_.*\.go$' | while read f; do mkdir -p $WT/$(dirname $f); cp $f $WT/$f; done)
 git -C $WT apply /verif/seeded/$SID/patch.diff || { echo "patch does not apply"; exit 3; }
-cd /verif
+cd $VH
 VERIF_REPO=$WT VERIF_RUNS=/root/scratch/seedruns/$TAG ./check $P --tier $TIER > /root/scratch/seedruns/$TAG.log 2>&1
 RC=$?
 grep -E "VIOLATION|^OK|^# " /root/scratch/seedruns/$TAG.log | head -6
